@@ -261,7 +261,7 @@ GRID = {
 def valuations(slot_list, grid=GRID, sort_of=None):
     """All assignments of grid values to the slots -> list of env dicts
     {'this': {...}, alias: {...}, ('@', v): value}."""
-    sort_of = sort_of or (lambda slot: NAME_SORT[slot[1]])
+    sort_of = sort_of or (lambda slot: NAME_SORT.get(slot[1], 'N'))
     doms = [grid[sort_of(s)] for s in slot_list]
     for combo in product(*doms):
         env = {'this': {}}
